@@ -33,7 +33,7 @@ impl Symbol {
 //@@ nowhere
 //@@ param serializer : SerS
 //@@ ret Result<SerOk, ErrS>
-//@@ subst `serializer.serialize_newtype_struct(SYMBOL, __E1)` => `serializer.serialize_newtype_struct(SYMBOL, payload_of(self))` rule=R9
+//@@ subst `serializer.serialize_newtype_struct(__E1, __E2)` => `serializer.serialize_newtype_struct(__E1, payload_of(self))` rule=R9
 //@@ spec
     ensures r is Ok ==> r->Ok_0.announced@ == SYMBOL@,       // [C03.newtype.own-name-written] [C05.newtype.own-name-written] a Symbol announces itself to the serializer under ITS name (and under no other type's): the serializer then writes it with the constructor of that type (unit SERENTRY)
 //@@ end
@@ -45,7 +45,7 @@ impl Symbol {
 //@@ nowhere
 //@@ param deserializer : DeS<'a>
 //@@ ret Result<Symbol, ErrS>
-//@@ subst `deserializer.deserialize_newtype_struct(SYMBOL, __E1)` => `deserializer.deserialize_newtype_struct(SYMBOL, VisS {})` rule=R9
+//@@ subst `deserializer.deserialize_newtype_struct(__E1, __E2)` => `deserializer.deserialize_newtype_struct(__E1, VisS {})` rule=R9
 //@@ spec
     ensures (*final(deserializer.log))@ == (*old(deserializer.log))@.push(SYMBOL@),       // [C03.newtype.own-name-read] [C05.newtype.own-name-read] and asks the deserializer for a value under the SAME name: the deserializer reads it with the decoder of that type (unit DEENTRY)
 //@@ end
@@ -62,7 +62,7 @@ impl SymbolRef {
 //@@ nowhere
 //@@ param serializer : SerS
 //@@ ret Result<SerOk, ErrS>
-//@@ subst `serializer.serialize_newtype_struct(SYMBOL_REF, __E1)` => `serializer.serialize_newtype_struct(SYMBOL_REF, payload_of(self))` rule=R9
+//@@ subst `serializer.serialize_newtype_struct(__E1, __E2)` => `serializer.serialize_newtype_struct(__E1, payload_of(self))` rule=R9
 //@@ spec
     ensures r is Ok ==> r->Ok_0.announced@ == SYMBOL_REF@,       // [C03.newtype.own-name-written] [C05.newtype.own-name-written] a SymbolRef announces itself to the serializer under ITS name (and under no other type's): the serializer then writes it with the constructor of that type (unit SERENTRY)
 //@@ end
@@ -74,7 +74,7 @@ impl SymbolRef {
 //@@ nowhere
 //@@ param deserializer : DeS<'a>
 //@@ ret Result<SymbolRef, ErrS>
-//@@ subst `deserializer.deserialize_newtype_struct(SYMBOL_REF, __E1)` => `deserializer.deserialize_newtype_struct(SYMBOL_REF, VisS {})` rule=R9
+//@@ subst `deserializer.deserialize_newtype_struct(__E1, __E2)` => `deserializer.deserialize_newtype_struct(__E1, VisS {})` rule=R9
 //@@ spec
     ensures (*final(deserializer.log))@ == (*old(deserializer.log))@.push(SYMBOL_REF@),       // [C03.newtype.own-name-read] [C05.newtype.own-name-read] and asks the deserializer for a value under the SAME name: the deserializer reads it with the decoder of that type (unit DEENTRY)
 //@@ end
@@ -91,7 +91,7 @@ impl Array {
 //@@ nowhere
 //@@ param serializer : SerS
 //@@ ret Result<SerOk, ErrS>
-//@@ subst `serializer.serialize_newtype_struct(ARRAY, __E1)` => `serializer.serialize_newtype_struct(ARRAY, payload_of(self))` rule=R9
+//@@ subst `serializer.serialize_newtype_struct(__E1, __E2)` => `serializer.serialize_newtype_struct(__E1, payload_of(self))` rule=R9
 //@@ spec
     ensures r is Ok ==> r->Ok_0.announced@ == ARRAY@,       // [C03.newtype.own-name-written] [C05.newtype.own-name-written] a Array announces itself to the serializer under ITS name (and under no other type's): the serializer then writes it with the constructor of that type (unit SERENTRY)
 //@@ end
@@ -109,7 +109,7 @@ impl Timestamp {
 //@@ nowhere
 //@@ param serializer : SerS
 //@@ ret Result<SerOk, ErrS>
-//@@ subst `serializer.serialize_newtype_struct(TIMESTAMP, __E1)` => `serializer.serialize_newtype_struct(TIMESTAMP, payload_of(self))` rule=R9
+//@@ subst `serializer.serialize_newtype_struct(__E1, __E2)` => `serializer.serialize_newtype_struct(__E1, payload_of(self))` rule=R9
 //@@ spec
     ensures r is Ok ==> r->Ok_0.announced@ == TIMESTAMP@,       // [C03.newtype.own-name-written] [C05.newtype.own-name-written] a Timestamp announces itself to the serializer under ITS name (and under no other type's): the serializer then writes it with the constructor of that type (unit SERENTRY)
 //@@ end
@@ -121,7 +121,7 @@ impl Timestamp {
 //@@ nowhere
 //@@ param deserializer : DeS<'a>
 //@@ ret Result<Timestamp, ErrS>
-//@@ subst `deserializer.deserialize_newtype_struct(TIMESTAMP, __E1)` => `deserializer.deserialize_newtype_struct(TIMESTAMP, VisS {})` rule=R9
+//@@ subst `deserializer.deserialize_newtype_struct(__E1, __E2)` => `deserializer.deserialize_newtype_struct(__E1, VisS {})` rule=R9
 //@@ spec
     ensures (*final(deserializer.log))@ == (*old(deserializer.log))@.push(TIMESTAMP@),       // [C03.newtype.own-name-read] [C05.newtype.own-name-read] and asks the deserializer for a value under the SAME name: the deserializer reads it with the decoder of that type (unit DEENTRY)
 //@@ end
@@ -138,7 +138,7 @@ impl Uuid {
 //@@ nowhere
 //@@ param serializer : SerS
 //@@ ret Result<SerOk, ErrS>
-//@@ subst `serializer.serialize_newtype_struct(UUID, __E1)` => `serializer.serialize_newtype_struct(UUID, payload_of(self))` rule=R9
+//@@ subst `serializer.serialize_newtype_struct(__E1, __E2)` => `serializer.serialize_newtype_struct(__E1, payload_of(self))` rule=R9
 //@@ spec
     ensures r is Ok ==> r->Ok_0.announced@ == UUID@,       // [C03.newtype.own-name-written] [C05.newtype.own-name-written] a Uuid announces itself to the serializer under ITS name (and under no other type's): the serializer then writes it with the constructor of that type (unit SERENTRY)
 //@@ end
@@ -150,7 +150,7 @@ impl Uuid {
 //@@ nowhere
 //@@ param deserializer : DeS<'a>
 //@@ ret Result<Uuid, ErrS>
-//@@ subst `deserializer.deserialize_newtype_struct(UUID, __E1)` => `deserializer.deserialize_newtype_struct(UUID, VisS {})` rule=R9
+//@@ subst `deserializer.deserialize_newtype_struct(__E1, __E2)` => `deserializer.deserialize_newtype_struct(__E1, VisS {})` rule=R9
 //@@ spec
     ensures (*final(deserializer.log))@ == (*old(deserializer.log))@.push(UUID@),       // [C03.newtype.own-name-read] [C05.newtype.own-name-read] and asks the deserializer for a value under the SAME name: the deserializer reads it with the decoder of that type (unit DEENTRY)
 //@@ end
@@ -167,7 +167,7 @@ impl Dec32 {
 //@@ nowhere
 //@@ param serializer : SerS
 //@@ ret Result<SerOk, ErrS>
-//@@ subst `serializer.serialize_newtype_struct(DECIMAL32, __E1)` => `serializer.serialize_newtype_struct(DECIMAL32, payload_of(self))` rule=R9
+//@@ subst `serializer.serialize_newtype_struct(__E1, __E2)` => `serializer.serialize_newtype_struct(__E1, payload_of(self))` rule=R9
 //@@ spec
     ensures r is Ok ==> r->Ok_0.announced@ == DECIMAL32@,       // [C03.newtype.own-name-written] [C05.newtype.own-name-written] a Dec32 announces itself to the serializer under ITS name (and under no other type's): the serializer then writes it with the constructor of that type (unit SERENTRY)
 //@@ end
@@ -179,7 +179,7 @@ impl Dec32 {
 //@@ nowhere
 //@@ param deserializer : DeS<'a>
 //@@ ret Result<Dec32, ErrS>
-//@@ subst `deserializer.deserialize_newtype_struct(DECIMAL32, __E1)` => `deserializer.deserialize_newtype_struct(DECIMAL32, VisS {})` rule=R9
+//@@ subst `deserializer.deserialize_newtype_struct(__E1, __E2)` => `deserializer.deserialize_newtype_struct(__E1, VisS {})` rule=R9
 //@@ spec
     ensures (*final(deserializer.log))@ == (*old(deserializer.log))@.push(DECIMAL32@),       // [C03.newtype.own-name-read] [C05.newtype.own-name-read] and asks the deserializer for a value under the SAME name: the deserializer reads it with the decoder of that type (unit DEENTRY)
 //@@ end
@@ -196,7 +196,7 @@ impl Dec64 {
 //@@ nowhere
 //@@ param serializer : SerS
 //@@ ret Result<SerOk, ErrS>
-//@@ subst `serializer.serialize_newtype_struct(DECIMAL64, __E1)` => `serializer.serialize_newtype_struct(DECIMAL64, payload_of(self))` rule=R9
+//@@ subst `serializer.serialize_newtype_struct(__E1, __E2)` => `serializer.serialize_newtype_struct(__E1, payload_of(self))` rule=R9
 //@@ spec
     ensures r is Ok ==> r->Ok_0.announced@ == DECIMAL64@,       // [C03.newtype.own-name-written] [C05.newtype.own-name-written] a Dec64 announces itself to the serializer under ITS name (and under no other type's): the serializer then writes it with the constructor of that type (unit SERENTRY)
 //@@ end
@@ -208,7 +208,7 @@ impl Dec64 {
 //@@ nowhere
 //@@ param deserializer : DeS<'a>
 //@@ ret Result<Dec64, ErrS>
-//@@ subst `deserializer.deserialize_newtype_struct(DECIMAL64, __E1)` => `deserializer.deserialize_newtype_struct(DECIMAL64, VisS {})` rule=R9
+//@@ subst `deserializer.deserialize_newtype_struct(__E1, __E2)` => `deserializer.deserialize_newtype_struct(__E1, VisS {})` rule=R9
 //@@ spec
     ensures (*final(deserializer.log))@ == (*old(deserializer.log))@.push(DECIMAL64@),       // [C03.newtype.own-name-read] [C05.newtype.own-name-read] and asks the deserializer for a value under the SAME name: the deserializer reads it with the decoder of that type (unit DEENTRY)
 //@@ end
@@ -225,7 +225,7 @@ impl Dec128 {
 //@@ nowhere
 //@@ param serializer : SerS
 //@@ ret Result<SerOk, ErrS>
-//@@ subst `serializer.serialize_newtype_struct(DECIMAL128, __E1)` => `serializer.serialize_newtype_struct(DECIMAL128, payload_of(self))` rule=R9
+//@@ subst `serializer.serialize_newtype_struct(__E1, __E2)` => `serializer.serialize_newtype_struct(__E1, payload_of(self))` rule=R9
 //@@ spec
     ensures r is Ok ==> r->Ok_0.announced@ == DECIMAL128@,       // [C03.newtype.own-name-written] [C05.newtype.own-name-written] a Dec128 announces itself to the serializer under ITS name (and under no other type's): the serializer then writes it with the constructor of that type (unit SERENTRY)
 //@@ end
@@ -237,7 +237,7 @@ impl Dec128 {
 //@@ nowhere
 //@@ param deserializer : DeS<'a>
 //@@ ret Result<Dec128, ErrS>
-//@@ subst `deserializer.deserialize_newtype_struct(DECIMAL128, __E1)` => `deserializer.deserialize_newtype_struct(DECIMAL128, VisS {})` rule=R9
+//@@ subst `deserializer.deserialize_newtype_struct(__E1, __E2)` => `deserializer.deserialize_newtype_struct(__E1, VisS {})` rule=R9
 //@@ spec
     ensures (*final(deserializer.log))@ == (*old(deserializer.log))@.push(DECIMAL128@),       // [C03.newtype.own-name-read] [C05.newtype.own-name-read] and asks the deserializer for a value under the SAME name: the deserializer reads it with the decoder of that type (unit DEENTRY)
 //@@ end
@@ -254,7 +254,7 @@ impl LazyValue {
 //@@ nowhere
 //@@ param serializer : SerS
 //@@ ret Result<SerOk, ErrS>
-//@@ subst `serializer.serialize_newtype_struct(LAZY_VALUE, __E1)` => `serializer.serialize_newtype_struct(LAZY_VALUE, payload_of(self))` rule=R9
+//@@ subst `serializer.serialize_newtype_struct(__E1, __E2)` => `serializer.serialize_newtype_struct(__E1, payload_of(self))` rule=R9
 //@@ spec
     ensures r is Ok ==> r->Ok_0.announced@ == LAZY_VALUE@,       // [C03.newtype.own-name-written] [C05.newtype.own-name-written] a LazyValue announces itself to the serializer under ITS name (and under no other type's): the serializer then writes it with the constructor of that type (unit SERENTRY)
 //@@ end
@@ -266,7 +266,7 @@ impl LazyValue {
 //@@ nowhere
 //@@ param deserializer : DeS<'a>
 //@@ ret Result<LazyValue, ErrS>
-//@@ subst `deserializer.deserialize_newtype_struct(LAZY_VALUE, __E1)` => `deserializer.deserialize_newtype_struct(LAZY_VALUE, VisS {})` rule=R9
+//@@ subst `deserializer.deserialize_newtype_struct(__E1, __E2)` => `deserializer.deserialize_newtype_struct(__E1, VisS {})` rule=R9
 //@@ spec
     ensures (*final(deserializer.log))@ == (*old(deserializer.log))@.push(LAZY_VALUE@),       // [C03.newtype.own-name-read] [C05.newtype.own-name-read] and asks the deserializer for a value under the SAME name: the deserializer reads it with the decoder of that type (unit DEENTRY)
 //@@ end
@@ -283,7 +283,7 @@ impl TransparentVec {
 //@@ nowhere
 //@@ param serializer : SerS
 //@@ ret Result<SerOk, ErrS>
-//@@ subst `serializer.serialize_newtype_struct(TRANSPARENT_VEC, __E1)` => `serializer.serialize_newtype_struct(TRANSPARENT_VEC, payload_of(self))` rule=R9
+//@@ subst `serializer.serialize_newtype_struct(__E1, __E2)` => `serializer.serialize_newtype_struct(__E1, payload_of(self))` rule=R9
 //@@ spec
     ensures r is Ok ==> r->Ok_0.announced@ == TRANSPARENT_VEC@,       // [C03.newtype.own-name-written] [C05.newtype.own-name-written] a TransparentVec announces itself to the serializer under ITS name (and under no other type's): the serializer then writes it with the constructor of that type (unit SERENTRY)
 //@@ end
